@@ -4,7 +4,9 @@
 #include <common/ndjson.hpp>
 #include <tlx/container/string_view.hpp>
 #include <fstream>
+#include <sstream>
 #include <string_view>
+#include <type_traits>
 using namespace vf;
 
 static const size_t NP = 7;
@@ -49,6 +51,91 @@ static std::string results(const std::string& hs, const std::string& ns) {
     return o + "}";
 }
 
+// Second event per case ("svx"): the overloads that have a std::string_view counterpart but take a C string, a (pointer, length)
+// pair, a char or a std::string; the iterators; and queries between views that ALIAS each other (h against h.substr(pos, n) on
+// the same storage), which the separately stored (h, n) pairs never produce.
+template <class V>
+static std::string results_x(const std::string& hs, const std::string& ns) {
+    const size_t npos = V::npos;
+    V h(hs.data(), hs.size()), n(ns.data(), ns.size());
+    const char* nz = ns.c_str();    // C string: ends at the first NUL
+    const char* hz = hs.c_str();
+    std::string o = "{";
+    o += "\"cmp_cs\":" + std::to_string(h.compare(nz));
+    auto arr = [&](const char* name, auto f) { o += std::string(",\"") + name + "\":["; for (size_t i = 0; i < NP; ++i) o += std::string(i ? "," : "") + f(Pv(i, npos)); o += "]"; };
+    auto arr2 = [&](const char* name, auto f) {
+        o += std::string(",\"") + name + "\":[";
+        for (size_t i = 0; i < NP; ++i) { o += std::string(i ? "," : "") + "["; for (size_t j = 0; j < NP; ++j) o += std::string(j ? "," : "") + f(Pv(i, npos), Pv(j, npos)); o += "]"; }
+        o += "]";
+    };
+    arr2("cmp3_cs", [&](size_t p, size_t c) { try { return std::to_string(h.compare(p, c, nz)); } catch (const std::out_of_range&) { return std::string("-2"); } });
+    arr2("cmp4_cs", [&](size_t p, size_t c) { try { return std::to_string(h.compare(p, c, ns.data(), ns.size())); } catch (const std::out_of_range&) { return std::string("-2"); } });
+    arr2("cmp5", [&](size_t p, size_t c) { try { return std::to_string(h.compare(p, c, n, c, p)); } catch (const std::out_of_range&) { return std::string("-2"); } });
+    arr("find_p", [&](size_t p) { return std::to_string(R(h.find(ns.data(), p, ns.size()), npos)); });
+    arr("find_z", [&](size_t p) { return std::to_string(R(h.find(nz, p), npos)); });
+    arr("rfind_p", [&](size_t p) { return std::to_string(R(h.rfind(ns.data(), p, ns.size()), npos)); });
+    arr("rfind_z", [&](size_t p) { return std::to_string(R(h.rfind(nz, p), npos)); });
+    arr("ffo_p", [&](size_t p) { return std::to_string(R(h.find_first_of(ns.data(), p, ns.size()), npos)); });
+    arr("ffo_z", [&](size_t p) { return std::to_string(R(h.find_first_of(nz, p), npos)); });
+    arr("flo_p", [&](size_t p) { return std::to_string(R(h.find_last_of(ns.data(), p, ns.size()), npos)); });
+    arr("flo_z", [&](size_t p) { return std::to_string(R(h.find_last_of(nz, p), npos)); });
+    arr("ffno_p", [&](size_t p) { return std::to_string(R(h.find_first_not_of(ns.data(), p, ns.size()), npos)); });
+    arr("ffno_z", [&](size_t p) { return std::to_string(R(h.find_first_not_of(nz, p), npos)); });
+    arr("flno_p", [&](size_t p) { return std::to_string(R(h.find_last_not_of(ns.data(), p, ns.size()), npos)); });
+    arr("flno_z", [&](size_t p) { return std::to_string(R(h.find_last_not_of(nz, p), npos)); });
+    if (ns.size() == 1) {
+        char c = ns[0];
+        arr("ffo_c", [&](size_t p) { return std::to_string(R(h.find_first_of(c, p), npos)); });
+        arr("flo_c", [&](size_t p) { return std::to_string(R(h.find_last_of(c, p), npos)); });
+        arr("ffno_c", [&](size_t p) { return std::to_string(R(h.find_first_not_of(c, p), npos)); });
+        arr("flno_c", [&](size_t p) { return std::to_string(R(h.find_last_not_of(c, p), npos)); });
+    }
+    auto six = [&](const char* name, bool eq, bool ne, bool lt, bool gt, bool le, bool ge) {
+        o += std::string(",\"") + name + "\":[" + B(eq) + "," + B(ne) + "," + B(lt) + "," + B(gt) + "," + B(le) + "," + B(ge) + "]"; };
+    { const std::string& y = ns; six("rel_s", h == y, h != y, h < y, h > y, h <= y, h >= y); }          // view OP std::string
+    { const std::string& x = hs; six("rel_s2", x == n, x != n, x < n, x > n, x <= n, x >= n); }          // std::string OP view
+    six("rel_z", h == nz, h != nz, h < nz, h > nz, h <= nz, h >= nz);                                      // view OP C string
+    six("rel_z2", hz == n, hz != n, hz < n, hz > n, hz <= n, hz >= n);                                    // C string OP view
+    { std::string f, r, cf, cr;
+      for (auto it = h.begin(); it != h.end(); ++it) f += *it;
+      for (auto it = h.rbegin(); it != h.rend(); ++it) r += *it;
+      for (auto it = h.cbegin(); it != h.cend(); ++it) cf += *it;
+      for (auto it = h.crbegin(); it != h.crend(); ++it) cr += *it;
+      o += ",\"fwd\":" + bytes(f.data(), f.size()) + ",\"rev\":" + bytes(r.data(), r.size()) + ",\"cfwd\":" + bytes(cf.data(), cf.size()) + ",\"crev\":" + bytes(cr.data(), cr.size()); }
+    o += ",\"front\":" + (h.empty() ? std::string("-2") : std::to_string((unsigned char)h.front()));
+    o += ",\"back\":" + (h.empty() ? std::string("-2") : std::to_string((unsigned char)h.back()));
+    o += ",\"len\":" + std::to_string(h.length()) + ",\"size\":" + std::to_string(h.size()) + ",\"empty\":" + B(h.empty());
+    { V a = h, b = n; a.swap(b); o += ",\"swap_a\":" + bytes(a.data(), a.size()) + ",\"swap_b\":" + bytes(b.data(), b.size()); }
+    { V a; o += ",\"dflt_len\":" + std::to_string(a.size()); }
+    if constexpr (std::is_same_v<V, tlx::StringView>) {
+        V a = h; a.clear(); o += ",\"clear_len\":" + std::to_string(a.size()) + ",\"clear_empty\":" + B(a.empty());
+        std::string t = h.to_string(); o += ",\"to_string2\":" + bytes(t.data(), t.size());
+        std::ostringstream os; os << h; std::string w = os.str(); o += ",\"stream\":" + bytes(w.data(), w.size());
+        std::string_view sv = h; o += ",\"to_std\":" + bytes(sv.data(), sv.size());
+        V back(sv); o += ",\"from_std\":" + bytes(back.data(), back.size());
+        V fs(hs); o += ",\"from_string\":" + bytes(fs.data(), fs.size());
+        V fz(hz); o += ",\"from_cstr\":" + bytes(fz.data(), fz.size());
+        V fr(hs.data(), hs.data() + hs.size()); o += ",\"from_range\":" + bytes(fr.data(), fr.size());
+    }
+    // aliasing views: sub = h.substr(p, c) shares h's storage
+    arr2("al", [&](size_t p, size_t c) {
+        if (p == npos || p > hs.size()) return std::string("[]");
+        V sub = h.substr(p, c);
+        std::string a = "[";
+        a += std::string(B(h == sub)) + "," + B(h != sub) + "," + B(h < sub) + "," + B(h > sub) + "," + B(h <= sub) + "," + B(h >= sub);
+        a += std::string(",") + B(sub == h) + "," + B(sub != h) + "," + B(sub < h) + "," + B(sub > h) + "," + B(sub <= h) + "," + B(sub >= h);
+        a += std::string(",") + B(h.starts_with(sub)) + "," + B(h.ends_with(sub));
+        return a + "]"; });
+    arr2("al_n", [&](size_t p, size_t c) {
+        if (p == npos || p > hs.size()) return std::string("[]");
+        V sub = h.substr(p, c);
+        std::string a = "[";
+        a += std::to_string(h.compare(sub)) + "," + std::to_string(sub.compare(h)) + "," + std::to_string(R(h.find(sub), npos)) + "," + std::to_string(R(h.rfind(sub), npos));
+        a += "," + std::to_string(R(sub.find(h), npos)) + "," + std::to_string(R(h.find_first_of(sub), npos)) + "," + std::to_string(R(h.find_last_not_of(sub), npos));
+        return a + "]"; });
+    return o + "}";
+}
+
 int main(int argc, char** argv) {
     if (argc < 3) return 2;
     std::ifstream in(argv[1]);
@@ -64,6 +151,8 @@ int main(int argc, char** argv) {
         std::string hb = bytes(h.data(), h.size()), nb = bytes(n.data(), n.size());
         { Ev e("sv"); e.raw("h", hb).raw("n", nb).raw("t", results<tlx::StringView>(h, n)); e.emit(out); }
         { Ev e("sv_std"); e.raw("h", hb).raw("n", nb).raw("s", results<std::string_view>(h, n)); e.emit(out); }
+        { Ev e("svx"); e.raw("h", hb).raw("n", nb).raw("t", results_x<tlx::StringView>(h, n)); e.emit(out); }
+        { Ev e("svx_std"); e.raw("h", hb).raw("n", nb).raw("s", results_x<std::string_view>(h, n)); e.emit(out); }
     }
     out.flush();
     return 0;
